@@ -13,7 +13,7 @@ import (
 
 func TestC07(t *testing.T) {
 	rapid.Check(t, func(t *rapid.T) {
-		sch := genSchema(t, SchemaCfg{Key: 1, Late: true, Merges: true, MinCols: 1, MaxCols: 6})
+		sch := genSchema(t, SchemaCfg{Key: 1, Late: true, Merges: true, EnsureLenMerge: true, MinCols: 1, MaxCols: 6})
 		mc := NewMachine("C07", sch, column.Options{})
 		defer func() { mc.Close() }()
 		defer mc.Guard(t)
